@@ -152,6 +152,8 @@ static void op_sweep(void)
     }
     OUT("]");
     if (un >= 0) { MPI_Offset l = -1; ncmpi_inq_dimlen(ncid, un, &l); OUT(",\"numrecs\":%lld", (long long)l); }
+    /* mode fingerprint: zero-request wait / wait_all answer differently in define, collective and independent mode */
+    if (!arg("nomfp")) { int a = ncmpi_wait(ncid, 0, NULL, NULL), b = ncmpi_wait_all(ncid, 0, NULL, NULL); OUT(",\"mfp\":[%d,%d]", a, b); }
     OUT("}");
 }
 
@@ -215,13 +217,20 @@ static void op_ls(void)
     closedir(d);
 }
 
+static long long g_led0[6];
+static void ledger_mark(void)
+{
+    MPI_Offset msz = 0; ncmpi_inq_malloc_size(&msz);
+    g_led0[0] = msz; g_led0[1] = shim_led_types; g_led0[2] = shim_led_comms; g_led0[3] = shim_led_infos; g_led0[4] = shim_led_files; g_led0[5] = shim_led_reqs;
+}
 static void op_ledger(void)
 {
     MPI_Offset msz = -1; int nopen = -1, rc;
     rc = ncmpi_inq_malloc_size(&msz);
     ncmpi_inq_files_opened(&nopen, NULL);
-    OUT(" rc=%d malloc=%lld nopen=%d types=%ld comms=%ld infos=%ld files=%ld reqs=%ld", rc, (long long)msz, nopen,
-        shim_led_types, shim_led_comms, shim_led_infos, shim_led_files, shim_led_reqs);
+    /* relative to the start of the case, so that a leak is attributed to the case that caused it */
+    OUT(" rc=%d malloc=%lld nopen=%d types=%ld comms=%ld infos=%ld files=%ld reqs=%ld", rc, (long long)(msz - g_led0[0]), nopen,
+        shim_led_types - g_led0[1], shim_led_comms - g_led0[2], shim_led_infos - g_led0[3], shim_led_files - g_led0[4], shim_led_reqs - g_led0[5]);
 }
 
 /* numrecs field read straight from the file */
